@@ -15,6 +15,7 @@ CONSTANTS
   MaxMsgs,     \* messages per behaviour
   MaxOpen,     \* sessions opened per behaviour
   WithClose, WithFlushRPC,
+  WithSendFail, \* BOOLEAN: messages whose response cannot be written (transport failure)
   EmitOn
 
 VARIABLES nmsg, nopen, hist, nextid
@@ -76,8 +77,8 @@ MCNext ==
      /\ \E s \in Sess : s = "s" \o ToString(nopen + 1) /\ Open(s) /\ H([a |-> "open", s |-> s])
      /\ nopen' = nopen + 1 /\ UNCHANGED <<nmsg, nextid>>
   \/ /\ nmsg < MaxMsgs
-     /\ \E s \in DOMAIN sess : \E m \in Msgs(s) :
-          /\ MsgBegin(s, m) /\ H([a |-> "msg", s |-> s, m |-> m])
+     /\ \E s \in DOMAIN sess : \E m \in Msgs(s) : \E f \in (IF WithSendFail THEN BOOLEAN ELSE {FALSE}) :
+          /\ MsgBegin(s, m, f) /\ H([a |-> "msg", s |-> s, m |-> m, sendfail |-> f])
           /\ nextid' = IF m.k = "ops" THEN nextid + 1 ELSE nextid
      /\ nmsg' = nmsg + 1 /\ UNCHANGED nopen
   \/ (OpDirect \/ OpAdd \/ OpAddEnd \/ OpDelete \/ OpRibErr \/ MsgEnd
@@ -92,8 +93,8 @@ MCNext ==
 
 MCSpec == MCInit /\ [][MCNext]_mcvars
 
-View == <<fwd, nis, rib, pend, refNH, refNHG, call, pflush, sess, cur, master, req, ann, nmsg, nopen, nextid>>
+View == <<fwd, nis, rib, pend, refNH, refNHG, call, pflush, sess, cur, master, req, ann, sf, nmsg, nopen, nextid>>
 
-Complete == nmsg = MaxMsgs /\ Idle
+Complete == Idle /\ (nmsg = MaxMsgs \/ (DOMAIN sess = {} /\ nopen = MaxOpen /\ ~WithFlushRPC))
 Emit == (EmitOn /\ Complete) => PrintT("@@" \o ToJson(hist))
 =============================================================================
